@@ -77,7 +77,7 @@ def closure_axioms(formulas):
 
 
 _PYEQ_CACHE = {}
-TRANSFER = {"list_len", "list_get", "list_index", "list_contains", "list_idx_ok", "dict_has", "dict_get", "dict_len", "sub_of"}
+TRANSFER = {"list_len", "list_get", "list_index", "list_contains", "list_count", "list_idx_ok", "dict_has", "dict_get", "dict_len", "sub_of"}
 
 
 def _pyeq_pairs_and_reads(f):
@@ -800,7 +800,7 @@ ABC_EDGES = [("Mapping", "Collection"), ("Sequence", "Collection"), ("MutableMap
              ("bool", "int")]
 
 PREDS = {"dict_has", "list_idx_ok", "list_set_ok", "list_del_ok", "list_contains", "list_pop_ok",
-         "list_lt", "list_le", "list_gt", "list_ge", "dict_len", "list_len", "list_set_exc", "list_index"}
+         "list_lt", "list_le", "list_gt", "list_ge", "dict_len", "list_len", "list_set_exc", "list_index", "list_count"}
 
 BUILTIN_TYPES = {
     # concrete built-in type -> abstract / base types it is an instance of  [E-ABC]
